@@ -13,6 +13,9 @@ const MaxOverdueDuration = 2 * time.Second
 type Waiter struct {
 	sched           core.Schedule
 	overdueDuration time.Duration
+	// overdueStale is true when overdueDuration was measured against cached lastNow,
+	// that is, real overdue can be bigger.
+	overdueStale bool
 
 	// Lazy initialized.
 	timer   *time.Timer
@@ -27,6 +30,7 @@ func NewWaiter(sched core.Schedule) *Waiter {
 // Returns true, if event successfully waited, or false
 // if waiter context is done, or schedule finished.
 func (w *Waiter) Wait(ctx context.Context) (ok bool) {
+	w.overdueStale = false
 	// Check, that context is not done. Very quick: 5 ns for op, due to benchmark.
 	select {
 	case <-ctx.Done():
@@ -44,6 +48,7 @@ func (w *Waiter) Wait(ctx context.Context) (ok bool) {
 	waitFor := next.Sub(w.lastNow)
 	if waitFor <= 0 {
 		w.overdueDuration = 0 - waitFor
+		w.overdueStale = true
 		return true
 	}
 	w.lastNow = time.Now()
@@ -73,6 +78,13 @@ func (w *Waiter) IsSlowDown(ctx context.Context) (ok bool) {
 	case <-ctx.Done():
 		return false
 	default:
+		if w.overdueStale {
+			// Token was released by cached time. Measure its overdue by the real clock.
+			now := time.Now()
+			w.overdueDuration += now.Sub(w.lastNow)
+			w.lastNow = now
+			w.overdueStale = false
+		}
 		return w.overdueDuration >= MaxOverdueDuration
 	}
 }
